@@ -25,5 +25,11 @@ claim("C16", "SSA graph-cut + effect pairing (removal ⇔ RETIRE_CONNECTION_ID /
 claim("C05", "constants and labels evaluated from the type-checked program against RFC 9001/9369 reference tables with version-selection cuts; SSA graph-cut on AEAD-open success edges, error-mapping, header-protection sample geometry and key-update gating",
       "Decides: salts, HKDF labels (key/iv/hp/ku/client in/server in/tls13), Retry keys and nonces equal the RFCs and the v2 set is selected exactly on Version2; plaintext leaves the unpackers only past Open()==nil with the header as AD; AEAD failures map to ErrDecryptionFailed; sample offset pn_offset+4..+16 agrees between packer and unpackers; rollKeys gated as RFC 9001 §6 requires; packet numbers only increase and pops are compared with peeks. Seal/open equality and packet-number decoding arithmetic are not decided.",
       "DESIGN.md §3 C05")
-for pid in ["C01","C02","C03","C08","C09","C10","C11","C12","C17","C18","C19"]:
+claim("C18", "nil-discipline dataflow for optional logger/recorder (Engler contradiction rule, frozen), SSA graph-cut on Content-Length bracketing and frame-type table, bounded-allocation cuts",
+      "Decides in http3: no method call on an unset optional logger/recorder on any path; body reads bracketed by Content-Length checks whose errors propagate, capped to the remaining length; reserved frame types close the connection and are never skipped, unknown types skipped; DATA length accounting; handler under recover; peer-sized allocations bounded. End-to-end equality of requests/responses is not decided.",
+      "DESIGN.md §3 C18")
+claim("C19", "SSA graph-cut between consecutive decoded fields (per-iteration must-pass), extracted pseudo-header / connection-specific name tables compared between parser and writers, error-code mapping",
+      "Decides: every decoded field passes size accounting (+32) and name/value validation before the next is read; regular fields are added only past their validator; pseudo-headers unknown / duplicate / after regular / wrong kind are errors with the duplicate test reading the old value; Content-Length via ParseUint(10,63); helper predicates; parser-rejected names ⊆ writer-dropped names; writers lower-case; server error mapping. httpguts itself and semantic equality are not decided.",
+      "DESIGN.md §3 C19")
+for pid in ["C01","C02","C03","C08","C09","C10","C11","C12","C17"]:
     na(pid, "rules for this property are designed (DESIGN.md §3) but not yet implemented in the checker; not claimed until they are")
